@@ -715,3 +715,8 @@ def run(ctx, res):
     numvalue.rule_value(ctx, res, src, impl, base)
     rule_pos(ctx, res, src)
     rule_start_pos(ctx, res, src)
+    # "the same decoded string bytes": the in-string escape decoder against
+    # the reference escape forms, and its round trip with the re-encoder
+    # (shared with C06)
+    from . import c06
+    c06.rule_escapes(ctx, res, src)
